@@ -1,4 +1,5 @@
 import ConcVerif.Props.C01
+import ConcVerif.Proof.LockFamCounts
 /-! # C08 — a handle is non-null exactly when it holds the lock, and releases it once
 
 Same model (`Model/LockFam.lean`): handle slots with `live / owns / nonnull / husk` (moved-from),
@@ -101,5 +102,31 @@ example : ∃ s, Reachable true false s ∧ (s.loc 2).ha.nonnull = false ∧ (s.
         (2, .callSess), (2, .acq .X .try_), (2, .lk .X .try_ false), (2, .got .a false),
         (1, .hbegin (.unlock .a)), (1, .rel .X), (1, .hend (some false))], rfl⟩,
    by decide, by decide, by decide, by decide, by decide, by decide⟩
+
+/-! ## The ghost counters are tied to the events of the trace
+
+`C08_released_once` speaks about the ghost counters `acqs` / `rels`.  For every accepted trace they
+are exactly the numbers of successful lock events and of unlock events the thread made. -/
+
+theorem C08_counts_are_events {en cap : Bool} {es : List (Tid × Ev)} {s : St} (h : run en cap es = some s)
+    (t : Tid) : s.acqs t = locksOf t es ∧ s.rels t = unlocksOf t es := by
+  have := run_counts es h t
+  simpa [init] using this
+
+/-- "released exactly once", on the trace itself: in every accepted trace each thread's successful
+lock events (mutex lock / successful try / timed / shared forms) exceed its unlock events by one
+exactly while it holds the mutex, and are equal in number whenever it holds nothing. -/
+theorem C08_released_once_trace {en cap : Bool} {es : List (Tid × Ev)} {s : St} (h : run en cap es = some s)
+    (t : Tid) : locksOf t es = unlocksOf t es + (if s.held t = .none then 0 else 1) := by
+  have h1 := C08_released_once ⟨es, h⟩ t
+  have h2 := C08_counts_are_events h t
+  omega
+
+/-- a thread outside every operation has unlocked exactly as often as it locked -/
+theorem C08_released_once_idle_trace {en cap : Bool} {es : List (Tid × Ev)} {s : St}
+    (h : run en cap es = some s) {t : Tid} (hp : (s.loc t).pc = .idle) : locksOf t es = unlocksOf t es := by
+  have h1 := C08_released_once_idle ⟨es, h⟩ hp
+  have h2 := C08_counts_are_events h t
+  omega
 
 end ConcVerif.LockFam
